@@ -21,17 +21,20 @@ class TaskGroupContext:
         *args: Arguments.args,
         **kwargs: Arguments.kwargs,
     ) -> Task[Result]:
+        group: TaskGroup
         try:
-            return cls._context.get().create_task(
-                function(*args, **kwargs),
-                context=copy_context(),
-            )
+            group = cls._context.get()
 
         except LookupError:  # spawn task out of group as a fallback
             return get_event_loop().create_task(
                 function(*args, **kwargs),
                 context=copy_context(),
             )
+
+        return group.create_task(
+            function(*args, **kwargs),
+            context=copy_context(),
+        )
 
     def __init__(
         self,
